@@ -11,7 +11,7 @@ func ZZ_C08_filterload() {
 	zzNextTag = 0
 	buf := vBuf("filter", 0, 36000)
 	k := uint32(vCase("hashfuncs", 0, vParam("maxk", 2)))
-	if vCase("maxfuncs", 0, 1) == 1 {
+	if vParam("with50", 0) == 1 && vCase("maxfuncs", 0, 1) == 1 {
 		k = 50
 	}
 	msg := &wire.MsgFilterLoad{Filter: buf, HashFuncs: k, Tweak: vU32("tweak"), Flags: wire.BloomUpdateType(vU8("flags"))}
@@ -20,7 +20,7 @@ func ZZ_C08_filterload() {
 	op := wire.OutPoint{Index: vU32("opindex")}
 	var h chainhash.Hash
 	vReach("in")
-	switch vCase("op", 0, 6) {
+	switch vCase("op", 0, vParam("maxop", 6)) {
 	case 0:
 		bf.Matches(item)
 	case 1:
